@@ -45,7 +45,9 @@ pub fn check_prefix(ctx: &mut Ctx, m: &[u8], cut: usize) {
     // under a tracing subscriber that enables everything: the same report (arguments of log macros are
     // only evaluated then), for the short cuts around the header and a sample of the others
     if cut <= 24 || cut % 7 == 0 || cut + 4 >= m.len() {
+        let ev0 = crate::trace_sub::events();
         let sub = guard(|| crate::trace_sub::with_subscriber(|| Message::from_bytes(p).map(|_| ())));
+        ctx.count_n("tracing-events-seen-during-prefix-parses", crate::trace_sub::events() - ev0);
         match sub {
             Ok(Err(StunParseError::Truncated { expected, actual })) if expected == want_expected && actual == cut => {}
             Ok(other) => ctx.violation("C17", "prefix-truncated", "Message::from_bytes", "under-tracing-subscriber", || wit(m, cut), format!("Err(Truncated{{expected: {want_expected}, actual: {cut}}})"), format!("{other:?}")),
@@ -221,6 +223,7 @@ pub fn run(ctx: &mut Ctx) {
             ctx.eval();
         }
     }
+    ctx.require("tracing-events-seen-during-prefix-parses", 1_000);
     ctx.require("prefix-truncated-ok", 50_000);
     ctx.require("messages", 500);
     ctx.require("header-sweep", 1_000);
